@@ -483,6 +483,54 @@ theorem build_valid (p : BuildAlg.Prog) (hwf : WF p) (b : Built) (tr : List Ev)
   obtain ⟨d, F⟩ := Bridge.bridgeFacts p hwf b st hdi htopo hown TF hinv hbtopo hargs LF
   exact build_valid_of_facts p hwf b tr h d F
 
+/-! ### `LeakFree` derived from a condition on graphs only -/
+
+/-- The graph-level discipline of the front end (closures only capture values of enclosing callbacks):
+    every argument that some discovered graph reads directly (input edges from its source) belongs to
+    a graph that encloses, in the final scope tree, every discovered graph reading it directly.
+    Nothing is said about nodes or their scopes. -/
+def ReadersEnclosed (p : Prog) (b : Built) : Prop :=
+  ∀ a, p.isArg a = true →
+    (∃ G, G ∈ b.graphTopo ∧ Reach p.adjIn (.src G) (.node a)) →
+    ∃ t, a ∈ lookupL b.argsOf t ∧
+      ∀ G, G ∈ b.graphTopo → Reach p.adjIn (.src G) (.node a) →
+        Anc (parent b.owner b.scopeOf) t G
+
+/-- **leakFree_of_readers**: the node-level hypothesis `LeakFree` (every argument a node reads belongs
+    to a graph enclosing the node's *scope*) follows from the graph-level one: the scope of a node is
+    the lowest common ancestor of the graphs reading it (`least_enclosing`), each of which reads the
+    argument too, so the owner of the argument — enclosing them all — encloses the scope. -/
+theorem leakFree_of_readers (p : Prog) (hwf : WF p) (b : Built) (tr : List Ev)
+    (h : build p = .ok (b, tr)) (R : ReadersEnclosed p b) : Bridge.LeakFree p b := by
+  obtain ⟨st, _, _, htopo, hown, hso, F⟩ := discover_final p hwf b tr h
+  have hinv := scope_fold p hwf st.owner st.topo.reverse F (lcaFuel st.topo.reverse)
+    (by simp only [lcaFuel]; omega) st.topo.reverse [] [] (by simp) (sinv_empty p st.owner)
+  rw [← hso, ← hown, ← htopo] at hinv
+  have hiff : ∀ G v, v ∈ p.postIn G ↔ Reach p.adjIn (.src G) v := fun G v =>
+    mem_visit_iff (rankV p) (rank_adjIn p hwf) p.fuel (.src G) v (rank_src_lt_fuel p hwf G)
+  constructor
+  · intro n c a _ hc ha harg
+    obtain ⟨g0, hg0, hv0⟩ := hinv.wit (.node n) c hc
+    have hstep : ∀ G, Reach p.adjIn (.src G) (.node n) → Reach p.adjIn (.src G) (.node a) :=
+      fun G hr => Reach.step hr (by simp only [Prog.adjIn, List.mem_map]; exact ⟨a, ha, rfl⟩)
+    obtain ⟨t, hat, henc⟩ := R a harg ⟨g0, hg0, hstep g0 ((hiff g0 _).mp hv0)⟩
+    refine ⟨t, ?_, hat⟩
+    apply (hinv.low (.node n) c hc).2 t
+    rintro G ⟨hG, hGv⟩
+    exact henc G hG (hstep G ((hiff G _).mp hGv))
+  · intro s a hs ha harg
+    have hr : Reach p.adjIn (.src s) (.node a) :=
+      Reach.step (Reach.refl _) (by simp only [Prog.adjIn, List.mem_map]; exact ⟨a, ha, rfl⟩)
+    obtain ⟨t, hat, henc⟩ := R a harg ⟨s, hs, hr⟩
+    exact ⟨t, henc s hs hr, hat⟩
+
+/-- **build_valid_of_readers**: `build_valid` with the graph-level hypothesis. -/
+theorem build_valid_of_readers (p : BuildAlg.Prog) (hwf : WF p) (b : Built) (tr : List Ev)
+    (h : build p = .ok (b, tr)) (R : ReadersEnclosed p b) :
+    Prog.validG (Bridge.toProg p b.argsOf).nodes (Bridge.toEGraph p b)
+      (Bridge.toProg p b.argsOf).main [] = true :=
+  build_valid p hwf b tr h (leakFree_of_readers p hwf b tr h R)
+
 /-- `build_valid` with every hypothesis executable (what the driver evaluates on each case). -/
 theorem build_valid_checked (p : BuildAlg.Prog) (hwf : p.WFb = true) (b : Built) (tr : List Ev)
     (h : build p = .ok (b, tr)) (hlf : Bridge.leakFreeB p b = true) :
